@@ -90,7 +90,7 @@ func cmdCheck(prop, tier string) int {
 	}
 	byMod := map[string][]*Contract{}
 	for _, c := range db.Contracts {
-		if c.Extern || c.Trusted != "" {
+		if c.Extern || (c.Trusted != "" && len(c.Checks) == 0) {
 			continue
 		}
 		has := false
@@ -409,7 +409,34 @@ func cmdCheck(prop, tier string) int {
 					}
 				}
 			}
-			if f.o.Result.Status != "sat" {
+			if f.o.Result.Status != "sat" && f.o.Script != "" && replayTemplateExists(f.fr) {
+				// no model because of quantified background axioms: search a CANDIDATE input on the script with
+				// every quantified assertion dropped (fewer constraints, so the candidate may be spurious: it only
+				// counts if the replay reproduces the failure on the real code)
+				cand := dropQuantified(f.o.Script)
+				for _, b := range f.fr.VC.replayBounds {
+					cand += "(assert " + b + ")\n"
+				}
+				if r2, _ := runSolvers(cand, f.fr.VC.modelVals, 10, false); r2.Status == "sat" {
+					mv := map[string]string{}
+					for k, v := range r2.Model {
+						lbl := f.fr.VC.modelLbl[k]
+						if lbl == "" {
+							lbl = k
+						}
+						mv[lbl] = v
+					}
+					if ok, out, test := tryReplay(f.fr, f.o, mv); test != "" && ok {
+						rec["model"] = mv
+						rec["model_kind"] = "candidate from the quantifier-free part of the obligation, confirmed by replay"
+						rec["replay_test"] = test
+						rec["replay_output"] = truncate(out, 4000)
+						rec["reproduced_on_real_code"] = true
+						suffix = ""
+					}
+				}
+			}
+			if f.o.Result.Status != "sat" && suffix != "" {
 				// no model (quantified goal): the replay template runs its own small enumeration
 				if ok, out, test := tryReplay(f.fr, f.o, map[string]string{}); test != "" {
 					rec["replay_test"] = test
@@ -475,7 +502,18 @@ func cmdCheck(prop, tier string) int {
 		scan = append(scan, s)
 	}
 	sort.Strings(scan)
+	// obligations that needed more than 2 s or a retry round: candidates for false alarms on a slower machine
+	var slow []map[string]interface{}
+	for _, fr := range frs {
+		for _, o := range fr.Obls {
+			if o.Expect != "sat" && o.ok() && (o.Result.Ms > 2000 || o.Retried > 0) {
+				slow = append(slow, map[string]interface{}{"obligation": o.Name, "ms": o.Result.Ms, "backend": o.Result.Backend, "retry_round_multiplier": o.Retried})
+				fmt.Printf("SLOW %s: %d ms on %s (retry x%d)\n", o.Name, o.Result.Ms, o.Result.Backend, o.Retried)
+			}
+		}
+	}
 	cov := map[string]interface{}{
+		"slow_obligations":         slow,
 		"obligations":              nObl,
 		"discharged":               nDis,
 		"checker_cmd":              fmt.Sprintf("/verif/bin/govc check --property %s --tier %s", prop, tier),
@@ -527,6 +565,26 @@ func cmdCheck(prop, tier string) int {
 		return 1
 	}
 	return 0
+}
+
+// dropQuantified removes the top-level assertions that contain a quantifier.
+func dropQuantified(script string) string {
+	var out []string
+	for _, l := range strings.Split(script, "\n") {
+		if strings.HasPrefix(l, "(assert ") && (strings.Contains(l, "(forall ") || strings.Contains(l, "(exists ")) {
+			continue
+		}
+		out = append(out, l)
+	}
+	return strings.Join(out, "\n")
+}
+
+func replayTemplateExists(fr *FuncResult) bool {
+	if fr == nil || fr.VC == nil || fr.VC.fn == nil {
+		return false
+	}
+	_, err := os.Stat(replayTemplatePath(fr))
+	return err == nil
 }
 
 func truncate(s string, n int) string {
